@@ -30,6 +30,7 @@ import (
 func init() { register("C17", runC17) }
 
 func runC17(r *Run) {
+	c17EmptyName(r)
 	if r.Want("spoof") {
 		c17Spoof(r)
 	}
